@@ -192,7 +192,9 @@ var c01Shapes = []struct {
 	{"open-braces", func(n int) []byte { return []byte("<?php " + strings.Repeat("{", n)) }},
 	{"close-braces", func(n int) []byte { return []byte("<?php " + strings.Repeat("}", n)) }},
 	{"open-parens", func(n int) []byte { return []byte("<?php " + strings.Repeat("(", n)) }},
-	{"nested-arrays", func(n int) []byte { return []byte("<?php $a = " + strings.Repeat("[", n/2) + strings.Repeat("]", n/2) + ";") }},
+	{"nested-arrays", func(n int) []byte {
+		return []byte("<?php $a = " + strings.Repeat("[", n/2) + strings.Repeat("]", n/2) + ";")
+	}},
 	{"unary-chain", func(n int) []byte { return []byte("<?php $a = " + strings.Repeat("!", n) + "$b;") }},
 	{"concat-chain", func(n int) []byte { return []byte("<?php $a = 1" + strings.Repeat(".1", n/2) + ";") }},
 	{"ternary-chain", func(n int) []byte { return []byte("<?php $a = $b" + strings.Repeat("?:$b", n/4) + ";") }},
